@@ -177,6 +177,31 @@ def all_reps_one(M, node):
 
 
 _MARGIN = {}
+_KNOWN = {}
+
+
+def known_diags():
+    """diag tag -> entry of /verif/known_findings.json (open findings only; read once, never written)."""
+    if "d" not in _KNOWN:
+        import json
+        import os
+        p = os.path.join(os.path.dirname(os.path.dirname(os.path.abspath(__file__))), "known_findings.json")
+        d = {}
+        if os.path.exists(p):
+            with open(p) as f:
+                for k in json.load(f).get("findings", []):
+                    if k.get("status", "open") == "open" and k.get("diag"):
+                        d[(k["property"], k["diag"])] = k
+        _KNOWN["d"] = d
+    return _KNOWN["d"]
+
+
+def is_known(f):
+    diag = f.get("detail", {}).get("diag")
+    if not diag:
+        return False
+    kd = known_diags()
+    return all((p, diag) in kd for p in f["props"]) and f["oracle"] in kd[(f["props"][0], diag)].get("oracles", [f["oracle"]])
 
 
 def plot_margin():
@@ -233,6 +258,8 @@ def evaluate_point(desc, i, ansP, stats):
     if d2:
         findings.append(oracles.F(["C03"], "Q!=Q*", step=i, what=what, diff=d2))
     for k, exc, msg in oracles.raised(full):
+        if k in ("STIM", "OPENQL"):
+            continue   # reported (and diagnosed) by the export oracles
         findings.append(oracles.F(OBS_PROPS.get(k, ["C02"]), "observer-raises", step=i, observer=k, exc=exc, msg=msg))
     M = feed.M
     if name not in M.roots:
@@ -334,7 +361,7 @@ def run_descriptor(desc, max_points=12):
     for i in points:
         fs = evaluate_point(desc, i, ansP[i], stats)
         findings.extend(fs)
-        if fs:
+        if any(not is_known(f) for f in fs):
             break   # the first failing point ends the run (later points would only echo it)
     # drawings-only perturbation => P!=Q findings also bear on C18
     obs_kinds = {st["what"] for st in steps if st["op"] == "OBS" and not st.get("check")}
